@@ -59,6 +59,7 @@ type Program struct {
 	maxRegionDepth int
 	maxRegionPaths int
 	lazyRegions    bool
+	symbolicMake   bool
 }
 
 func (p *Program) isRoot(pkg *ssa.Package) bool { return p.roots[pkg] }
@@ -332,6 +333,17 @@ func (P *Program) applyDirective(kind, rest string, cur *ssa.Package) error {
 			return err
 		}
 		P.stubs[src.String()] = &stubDir{kind: "stub", target: dst, tname: dst.String()}
+	case "option":
+		for _, o := range strings.Fields(rest) {
+			switch o {
+			case "symbolic-make":
+				P.symbolicMake = true
+			case "no-region-merge":
+				P.regionMerge = false
+			default:
+				return fmt.Errorf("unknown option %q", o)
+			}
+		}
 	case "root", "unwind", "note":
 		// handled by the check configuration
 	default:
